@@ -78,9 +78,9 @@ type sig[X sigma.Statement, W sigma.Witness, A sigma.Statement, S sigma.State, Z
 	compilers  []compiler.Name
 }
 
-func (s *sig[X, W, A, S, Z]) Proto() string  { return s.proto }
-func (s *sig[X, W, A, S, Z]) Group() string  { return s.group }
-func (s *sig[X, W, A, S, Z]) Shape() string  { return s.shape }
+func (s *sig[X, W, A, S, Z]) Proto() string   { return s.proto }
+func (s *sig[X, W, A, S, Z]) Group() string   { return s.group }
+func (s *sig[X, W, A, S, Z]) Shape() string   { return s.shape }
 func (s *sig[X, W, A, S, Z]) Order() *big.Int { return s.order }
 func (s *sig[X, W, A, S, Z]) Compilers() []compiler.Name {
 	if s.compilers != nil {
